@@ -6,10 +6,12 @@ PROP = {
          'stable block built by the honest miner path in different slots (3..10 blocks, depth <= 6, siblings at equal height) + per block an adversarial confirmation multiset '
          '(valid, duplicates, high-s re-encoded twins, the miner\'s own signature copied / re-encoded, signatures for a sibling, non-deputy signer, random bytes, wrong height, '
          'unknown block; embedded in the block body or as 1..3 packets) delivered to a real node (identity outsider or deputy 0) in a seeded random order with duplicates; blocks '
-         'rejected for a missing parent are re-offered. After every step the five invariants of the statement are checked against the harness\'s own record of the tree; the quorum '
+         'rejected for a missing parent are re-offered. Every fourth history lets 1..3 users register as candidates in the prefix (nodes configured for n+3 deputies), '
+         'so that the term elected at the snapshot block has more deputies and a larger two-thirds threshold; the prefix then runs through the interim period and the tree lies '
+         'in the new term. After every step the five invariants of the statement are checked against the harness\'s own record of the tree; the quorum '
          'is recounted from the stored block by recovering every signature. distinct = (n, identity, prefix length, tree size, hostile); non-trivial = tree with siblings and >= 3 blocks',
  'assumptions': ['ancestry is decided from the harness\'s own record of everything offered, never by asking the node'],
  'min_cases': {'quick': 250, 'thorough': 6000},
- 'min_stats': {'quick': {'stable_advances': 200, 'quorums_checked': 200, 'confirm_packets': 1000}},
+ 'min_stats': {'quick': {'stable_advances': 200, 'quorums_checked': 200, 'confirm_packets': 1000, 'scenarios_with_more_deputies_in_the_new_term': 20}},
  'timeout_s': {'quick': 900, 'thorough': 10800},
 }
